@@ -179,7 +179,7 @@ def frac_of(v):
 
 
 BINOPS = {"add": "+", "sub": "-", "mul": "*", "div": "/"}
-FUN1 = {"ln": "ln", "exp": "exp", "sqrt": "sqrt", "tan": "tan", "abs": "Abs"}
+FUN1 = {"ln": "ln", "exp": "exp", "sqrt": "sqrt", "tan": "tan", "abs": "Abs", "floor": "floor", "ceil": "ceiling"}
 
 
 SPECS = [(_beta_new_spec() if x == "@BETA_NEW@" else x) for x in SPECS]
@@ -403,16 +403,20 @@ def qualify(F, inst, T):
 
 
 def run(chk, F, tier):
-    chk.trusted += ["the cited algorithms have the documented law (Marsaglia & Tsang 2000; Michael, Schucany & Haas 1976; Henze 1986; the chi-square / t / F / log-normal / "
-                    "NIG representation theorems)", "sympy's simplification (`equal`) and 40-digit evaluation at rational points (`different`)",
+    chk.trusted += ["the cited algorithms have the documented law (Marsaglia & Tsang 2000; Cheng 1978; Michael, Schucany & Haas 1976; Henze 1986; the chi-square / t / F / "
+                    "log-normal / NIG representation theorems)", "sympy's simplification (`equal`) and 40-digit evaluation at rational points (`different`)",
                     "the reference decision lists in rules_c01.py were transcribed from those sources and from the crate's documentation"]
+    run_specs(chk, F, SPECS, 50)
+
+
+def run_specs(chk, F, specs, floor_n):
     jobs = []
     ctx = {}
     nfun = 0
-    for spec in SPECS:
-        for bits in (32, 64):
+    for spec in specs:
+        for bits in spec.get("bits", (32, 64)):
             key = "%s:f%d" % (spec["name"], bits)
-            inst = find(F, spec["fn"], bits)
+            inst = find(F, spec["fn"], bits) if spec.get("generic", True) else next((i for i in F.instances if i.get("full") and i["path"] == spec["fn"]), None)
             if inst is None:
                 chk.violation("anchor", key, "function %s not found in the extracted program" % spec["fn"])
                 continue
@@ -422,7 +426,7 @@ def run(chk, F, tier):
                 build_ctor_jobs(chk, F, inst, spec, key, where, jobs, ctx)
             else:
                 build_alg_jobs(chk, F, inst, spec, key, where, jobs, ctx)
-    chk.floor("sampler / constructor instances compared with their reference", nfun, 50)
+    chk.floor("sampler / constructor instances compared with their reference", nfun, floor_n)
     if not jobs:
         return
     r = subprocess.run(["python3-vt", os.path.join(HERE, "symcheck.py")], input=json.dumps(jobs), stdout=subprocess.PIPE, stderr=subprocess.PIPE, text=True, timeout=2400)
@@ -433,7 +437,7 @@ def run(chk, F, tier):
     ndec = 0
     for key, c in sorted(ctx.items()):
         ndec += judge(chk, key, c, res)
-    chk.floor("functions judged (decided, or explicitly reported as not decided)", ndec + sum(1 for u_ in chk.unproved if u_["rule"] in ("algorithm", "constructor")), 50)
+    chk.floor("functions judged (decided, or explicitly reported as not decided)", ndec + sum(1 for u_ in chk.unproved if u_["rule"] in ("algorithm", "constructor")), floor_n)
 
 
 def build_ctor_jobs(chk, F, inst, spec, key, where, jobs, ctx):
@@ -580,8 +584,18 @@ def _is_try_break(p):
     return False
 
 
+def _contradictory(p):
+    seen = {}
+    for lit in p["lits"]:
+        if lit and lit[0] != "variant":
+            if seen.get(lit[0], lit[1]) != lit[1]:
+                return True
+            seen[lit[0]] = lit[1]
+    return False
+
+
 def build_case(chk, F, inst, spec, key, where, jobs, ctx, summ, paths):
-    paths = [p for p in paths if not _is_try_break(p)]
+    paths = [p for p in paths if not _is_try_break(p) and not _contradictory(p)]
     sub = {"atoms": summ["atoms"], "paths": paths}
     draws = collect_draws({"atoms": [summ["atoms"][i] for i in used_atoms(paths)], "paths": paths})
     nm = Namer(F, inst, spec, draws)
@@ -608,13 +622,13 @@ def build_case(chk, F, inst, spec, key, where, jobs, ctx, summ, paths):
         try:
             if kind.startswith("call:"):
                 arg = nm.sym(a)
-                cands = [k for k, sa in enumerate(c["spec_atoms"]) if sa[0] == kind and sa[1].replace(" ", "") == arg.replace(" ", "").strip("()")]
+                cands = [k for k, sa in enumerate(c["spec_atoms"]) if sa[0] == kind]
                 if not cands:
-                    cands = [k for k, sa in enumerate(c["spec_atoms"]) if sa[0] == kind and "(%s)" % sa[1].replace(" ", "") == arg.replace(" ", "")]
-                if cands:
-                    c["atoms"][i] = (None, "flag", arg, (cands[0], False))
-                else:
                     c["problems"].append("the implementation tests %s(%s), the reference does not" % (kind[5:], arg))
+                    continue
+                jid = "%s|atom|%d" % (key, i)
+                jobs.append({"id": jid, "symbols": spec["symbols"], "term": arg, "accepted": [c["spec_atoms"][k][1] for k in cands], "relative": True})
+                c["atoms"][i] = (jid, "eq", "%s(%s)" % (kind[5:], arg), [(k, False) for k in cands])
                 continue
             if kind == "flag":
                 name = nm.sym(a)
@@ -705,9 +719,34 @@ def judge(chk, key, c, res):
             return 1
         else:
             und.append("comparison %d: %s" % (i, v["detail"]))
+    # paths on which two mutually exclusive tests of the reference both hold are infeasible
+    let = c["let"]
+    excl = []
+    for grp in spec.get("exclusive", []):
+        idx = []
+        for cond in grp:
+            kind_, x_, y_ = parse_rule_cond(cond)
+            a_ = (kind_ if kind_ == "eq" else "lt", subst_let(x_, let), subst_let(y_, let))
+            if a_ in c["spec_atoms"]:
+                idx.append(c["spec_atoms"].index(a_))
+        excl.append(idx)
+    dead = set()
+    for pi_, p in enumerate(summ["paths"]):
+        true_atoms = set()
+        for lit in p["lits"]:
+            if lit and lit[0] != "variant" and lit[0] in amap:
+                sa, swapped = amap[lit[0]]
+                kind = summ["atoms"][lit[0]][0]
+                holds = lit[1] if (kind in ("eq", "flag") or kind.startswith("call:") or not swapped) else not lit[1]
+                if holds:
+                    true_atoms.add(sa)
+        if any(len(true_atoms & set(g)) > 1 for g in excl):
+            dead.add(pi_)
     # C: returned terms
     rmap = {}
     for pi_, (jid, term) in c["rets"].items():
+        if pi_ in dead:
+            continue
         v = res[jid]
         if v["verdict"] == "equal":
             rmap[pi_] = c["spec_rets"][v["form"]]
@@ -737,6 +776,8 @@ def judge(chk, key, c, res):
     def impl_outcome(assign):
         outs = set()
         for pi_, p in enumerate(paths):
+            if pi_ in dead:
+                continue
             okp = True
             for lit in p["lits"]:
                 if lit is None or lit[0] == "variant":
@@ -756,7 +797,18 @@ def judge(chk, key, c, res):
                 outs.add("continue" if o[0] == "continue" else rmap.get(pi_))
         return outs
 
+    excl = []
+    for grp in spec.get("exclusive", []):
+        idx = []
+        for cond in grp:
+            kind_, x_, y_ = parse_rule_cond(cond)
+            a_ = (kind_ if kind_ == "eq" else "lt", subst_let(x_, let), subst_let(y_, let))
+            if a_ in c["spec_atoms"]:
+                idx.append(c["spec_atoms"].index(a_))
+        excl.append(idx)
     for assign in itertools.product((False, True), repeat=nsa):
+        if any(sum(1 for k in grp if assign[k]) > 1 for grp in excl):
+            continue            # mutually exclusive tests cannot both hold
         so = spec_eval(c["lists"], assign, let)
         io = impl_outcome(assign)
         same = (io == {so}) if not isinstance(so, frozenset) else (len(io) == 1 and next(iter(io)) in so)
